@@ -3,15 +3,13 @@ package c15
 import (
 	"encoding/json"
 	"fmt"
-	"math"
+
 	"testing"
 	"time"
 
 	"verif/harness/choice"
 	"verif/harness/wproto"
 )
-
-func bits(x float64) uint64 { return math.Float64bits(x) }
 
 var kinds = []struct {
 	Name string
